@@ -9,6 +9,7 @@ def load_mutants(pid=None):
     out = []
     for p in sorted(glob.glob(os.path.join(VERIF, "mutants", "*.json"))):
         for m in json.load(open(p)):
+            if "property" not in m: continue      # benign.json: behaviour-preserving refactors (tools/run_benign.py)
             if pid is None or m["property"] == pid:
                 out.append(m)
     return out
